@@ -16,3 +16,5 @@ for d in seeded/${1:-*}/; do
   echo "$name $prop $r $(echo "$out" | grep tier= | sed 's/.*obligations/obligations/')"
 done
 find /verif/replays -name '*.json' -delete 2>/dev/null
+# evidence written while a patch was applied describes the patched tree: put the committed files back
+git -C /verif checkout -- evidence 2>/dev/null
